@@ -147,6 +147,17 @@ def check_accept(t, v, bs):
         return 'track-read-raises/' + sig(t, v), 'reading from a track raised %r' % (e,)
     if not (r == msg.copy(time=5)) or type(r) is not type(msg):
         return 'track-roundtrip/' + sig(t, v), 'track read gave %r for %r' % (_short(r), _short(msg))
+    # what bytes() returned is the caller's list (a file writer prepends the delta time to it ...)
+    keep = list(b)
+    core.scribble(b)
+    try:
+        b2 = msg.bytes()
+    except Exception as e:
+        return 'bytes-raises/second/' + sig(t, v), 'second bytes() raised %r' % (e,)
+    if list(b2) != keep or b2 is b:
+        return 'bytes-aliased/' + sig(t, v), 'after the caller changed the list bytes() returned, bytes()=%r expected %r' % (
+            b2[:16], keep[:16])
+    core.scribble(d)
     return None
 
 
@@ -494,3 +505,4 @@ CHECK_DEADLOCK FALSE
     # re-entrancy: two threads inside these functions at once, a switch possible before every statement
     from .. import conc
     conc.run_scenarios(ctx, 'C09', 2 if ctx.tier == 'thorough' else 1)
+    conc.first_use(ctx, 'C09', 120 if ctx.tier == 'thorough' else 40)
